@@ -62,7 +62,7 @@ def inputs(ctx):
         out.append(('program', '#program final.\n' + p + '\n'))
     # valid random programs with one random token-level mutation
     toks = ["'", "_", '&', '~', '>', '<', ':', ';', '(', ')', '{', '}', '.', ',', '-', '1', 'X', '>?', '<*', ';>', '.>?', '*', '?', 'not', ':-']
-    n = 300 if ctx.quick else 3000
+    n = 300 if ctx.quick else 1500
     for i in range(n):
         atoms = ['a', 'b']
         k = rng.random()
